@@ -784,3 +784,36 @@ func VerifC10SharedHandlerList() {
 		vassert(c10Count(evs, "common", k, "B") == 1 && c10Count(evs, "extra", k, "B") == 1 && c10Count(evs, "hg", k, "B") == 1, "unit B reports each "+k+" once to both of its handlers and to the global one")
 	}
 }
+
+// One *Lambda value added to a graph under two keys (and to a second graph compiled later): every node execution
+// reports the run info of its own node.
+func VerifC10SharedLambda() {
+	ctx := context.Background()
+	vcfg("fifo", 1)
+	var evs []c10Ev
+	l := InvokableLambda(func(ctx context.Context, in map[string]any) (map[string]any, error) {
+		return map[string]any{"v": vsymUF("f", vFold(in))}, nil
+	})
+	g := NewGraph[map[string]any, map[string]any]()
+	_ = g.AddLambdaNode("a", l, WithNodeName("A"))
+	_ = g.AddLambdaNode("b", l, WithNodeName("B"))
+	_ = g.AddEdge(START, "a")
+	_ = g.AddEdge("a", "b")
+	_ = g.AddEdge("b", END)
+	r, err := g.Compile(ctx, WithGraphName("G"))
+	vassert(err == nil, "graph compiles")
+	if vchoose("second", 2) == 1 { // the same lambda in another graph compiled afterwards
+		g2 := NewGraph[map[string]any, map[string]any]()
+		_ = g2.AddLambdaNode("c", l, WithNodeName("C"))
+		_ = g2.AddEdge(START, "c")
+		_ = g2.AddEdge("c", END)
+		_, err = g2.Compile(ctx, WithGraphName("G2"))
+		vassert(err == nil, "second graph compiles")
+	}
+	_, rerr := r.Invoke(ctx, map[string]any{"in": vsymInt("x")}, WithCallbacks(&c10Rec{id: "h", evs: &evs}))
+	vassert(rerr == nil, "run succeeds")
+	for _, u := range []string{"G", "A", "B"} {
+		vassert(c10Count(evs, "h", "start", u) == 1 && c10Count(evs, "h", "end", u) == 1, "exactly one start and one end reported for unit "+u+" under its own name")
+	}
+	vassert(c10Count(evs, "h", "start", "C") == 0, "nothing is reported under the name of a node of another graph")
+}
